@@ -27,7 +27,7 @@ QUICK_UNITS = [
     "src/Variogram/Vario.cpp", "src/Variogram/AVario.cpp",
     "src/Neigh/ANeigh.cpp", "src/Neigh/NeighBench.cpp", "src/Neigh/NeighMoving.cpp", "src/Neigh/NeighCell.cpp", "src/Basic/Rotation.cpp", "src/Basic/Tensor.cpp", "src/LinearOp/IProjMatrix.cpp", "src/Basic/Grid.cpp",
     "src/Anamorphosis/AnamEmpirical.cpp", "src/Anamorphosis/AnamHermite.cpp", "src/Simulation/CalcSimuTurningBands.cpp", "src/Basic/Indirection.cpp", "src/Skin/Skin.cpp",
-    "src/Spatial/SpatialIndices.cpp", "src/Stats/PCA.cpp",
+    "src/Spatial/SpatialIndices.cpp", "src/Stats/PCA.cpp", "src/Drifts/DriftList.cpp",
 ]
 
 
@@ -876,10 +876,15 @@ def r10_2d(prog, chk):
 # statistics of the whole program (thorough tier lists the other co-modified pairs as an inventory)
 PARALLEL = {
     "ACovAnisoList": [{"_covs", "_filtered"}],
+    "DriftList": [{"_drifts", "_filtered", "_betaHat"}],
     "AnamEmpirical": [{"_ZDisc", "_YDisc"}],
     "Indirection": [{"_vecRToA", "_vecAToR"}],
     "Skin": [{"_address", "_energy"}],
 }
+
+
+PARALLEL_EXEMPT = {("DriftList::resetDriftList", ("_betaHat", "_drifts", "_filtered")):
+                   "re-aligns the follower `_filtered` on the number of drift functions when they differ (`if (nbfl != _filtered.size()) resize`): no item is added or removed here"}
 
 
 def r10_5(prog, chk):
@@ -888,7 +893,29 @@ def r10_5(prog, chk):
     for cls, groups in sorted(PARALLEL.items()):
         if cls not in prog.classes:
             raise facts.AnalysisBroken("class %s (parallel containers) not analysed" % cls)
-        n += c07.co_update(prog, chk, cls, groups, "R10.5")
+        n += c07.co_update(prog, chk, cls, groups, "R10.5", exempt=PARALLEL_EXEMPT)
+        # R10.5e: removing item i removes element i of EVERY container of the group, in the same method (a later `resize` of a sibling
+        # that was not erased drops its LAST element: the attributes of the remaining items shift onto their neighbours)
+        for f in sorted(prog.funcs, key=lambda x: x.line):
+            if f.cls != cls or f.body is None:
+                continue
+            erased = {}
+            for x in f.walk():
+                if x["k"] == "MCall" and (x.get("callee") or "").split("::")[-1] == "erase":
+                    o = call_obj(x)
+                    if o is not None and o["k"] == "MemberExpr" and o.get("mk") == "field":
+                        erased.setdefault(o["n"], x)
+            for grp in groups:
+                hit = sorted(m_ for m_ in grp if m_ in erased)
+                if not hit:
+                    continue
+                n += 1
+                miss = sorted(m_ for m_ in grp if m_ not in erased)
+                chk.analysed(f)
+                chk.ob("R10.5e", "%s: erases the same item from %s" % (f.name, ", ".join(sorted(grp))), f.loc(erased[hit[0]]), not miss,
+                       detail=None if not miss else "%s erased, %s not: the element of the removed item stays, the attributes of the following items are shifted by one "
+                       "(and the last one is lost if a later resize truncates the container)" % (", ".join(hit), ", ".join(miss)),
+                       key="R10.5e|%s|%s" % (f.name, "+".join(sorted(grp))))
     chk.floor("R10.5", n, 8)
 
 
@@ -1109,6 +1136,9 @@ def r10_6b(prog, chk):
     chk.floor("R10.6b", n, 4)
 
 
+GROW_CLASSES = ("Vario",)       # classes whose private helpers rebuild member lists at each calculation (confirmed by reading)
+
+
 def r10_8(prog, chk, classes=None, floor_n=10):
     """R10.8 - a calculation entry point starts from scratch.  Members that the methods of the class ACCUMULATE into
     (`m[..] += x`) must be reset (fill / assign / clear / whole assignment; a plain resize() keeps the old content) on every
@@ -1138,14 +1168,23 @@ def r10_8(prog, chk, classes=None, floor_n=10):
                 return e["n"]
             return None
         acc = {}
+        grow = {}
         for f in meths:
             for x in f.walk():
                 if x["k"] in ("Assign", "OpCall") and x.get("op") == "+=" and x.get("c"):
                     fl = root_field(x["c"][0])
                     if fl:
                         acc.setdefault(fl, {}).setdefault(f.usr, []).append(x)
+                # a list that a PRIVATE helper appends to (push_back in a `_method`): the public methods that reach the helper rebuild the
+                # list, they must empty it first (public `addX` methods append on purpose and are not concerned)
+                if x["k"] == "MCall" and (x.get("callee") or "").split("::")[-1] in ("push_back", "emplace_back") and f.short.startswith("_") and K in GROW_CLASSES:
+                    fl = root_field(call_obj(x))
+                    if fl:
+                        grow.setdefault(fl, {}).setdefault(f.usr, []).append(x)
         # the accumulators of a calculation: containers (subscripted) that are also read back by getters
         acc = {fl: v for fl, v in acc.items() if any(x["c"][0]["k"] in ("Index", "OpCall") for xs in v.values() for x in xs)}
+        for fl, v in grow.items():
+            acc.setdefault(fl, {}).update(v)
         # member-pointer targets (evaluation callbacks)
         pm = set()
         for f in meths:
